@@ -69,7 +69,7 @@ Proof.
   replace ((0 <=? d * 16 + l) && (d * 16 + l <? 256)) with true by lia. reflexivity.
 Qed.
 
-Lemma Options_encode_loop_is_rfc l : forall prev, options_ok 65803 prev l = true ->
+Lemma Options_encode_loop_is_rfc l : forall prev, options_ok 65804 prev l = true ->
   Options_encode_loop prev l = Ok (rfc_options prev (map raw_option l)) /\ bytes_ok (rfc_options prev (map raw_option l)) = true.
 Proof.
   induction l as [|[n v] r IH]; intros prev H; [split; reflexivity|].
@@ -82,43 +82,6 @@ Proof.
   unfold rfc_option. cbn [app]. rewrite <- !app_assoc. split; [reflexivity|].
   rewrite bytes_ok_cons, !bytes_ok_app, O, IO, !extended_ok by lia.
   pose proof (nibble_range (n - prev)). pose proof (nibble_range (blen (rfc_value v))). unfold byte_ok. lia.
-Qed.
-
-(* the known defect: an option delta or value length of exactly 65804 — which the RFC can express and the parser
-   accepts — makes the encoder raise ValueError *)
-Fixpoint ext_max_at (prev : Z) (l : list (Z * optval)) : bool :=
-  match l with
-  | [] => false
-  | (n, v) :: r => (n - prev =? 65804) || (blen (rfc_value v) =? 65804) || ext_max_at n r
-  end.
-Lemma options_ok_split l : forall prev, options_ok 65804 prev l = true ->
-  if ext_max_at prev l then options_ok 65803 prev l = false else options_ok 65803 prev l = true.
-Proof.
-  induction l as [|[n v] r IH]; intros prev H; [reflexivity|].
-  pose proof H as H0. apply options_ok_cons in H. destruct H as (Hd & Hl & Hlen & Hr). specialize (IH n Hr).
-  cbn [ext_max_at]. destruct (n - prev =? 65804) eqn:A; cbn [orb].
-  { cbn [options_ok]. replace (n - prev <=? 65803) with false by lia. rewrite andb_false_r. reflexivity. }
-  destruct (blen (rfc_value v) =? 65804) eqn:B; cbn [orb].
-  { cbn [options_ok]. replace (blen (rfc_value v) <=? 65803) with false by lia. rewrite andb_false_r. reflexivity. }
-  destruct (ext_max_at n r).
-  { cbn [options_ok]. rewrite IH. apply andb_false_r. }
-  apply options_ok_cons. repeat split; try lia; assumption.
-Qed.
-Lemma Options_encode_loop_ext_max l : forall prev, options_ok 65804 prev l = true -> ext_max_at prev l = true ->
-  Options_encode_loop prev l = Raise ValueError.
-Proof.
-  induction l as [|[n v] r IH]; intros prev H X; [discriminate|].
-  apply options_ok_cons in H. destruct H as (Hd & Hl & Hlen & Hr).
-  rewrite <- table_matches_rfc in Hl. destruct (option_encode_is_rfc _ _ Hl) as [E O].
-  pose proof (blen_nonneg (rfc_value v)) as Hnn.
-  cbn [Options_encode_loop]. rewrite E. cbn [bind]. cbn [ext_max_at] in X.
-  destruct (n - prev =? 65804) eqn:A.
-  { rewrite write_ext_reject by lia. reflexivity. }
-  rewrite write_ext_spec by lia. cbn [bind].
-  destruct (blen (rfc_value v) =? 65804) eqn:B.
-  { rewrite write_ext_reject by lia. reflexivity. }
-  rewrite write_ext_spec by lia. cbn [bind]. rewrite head_byte by (apply nibble_range; lia). cbn [bind].
-  rewrite (IH n Hr) by (cbn [orb] in X; exact X). reflexivity.
 Qed.
 
 (* ------------------------------------------------------------------ Options.decode on a well-formed option sequence *)
@@ -306,7 +269,7 @@ Lemma rfc_encode_canonical_sorted maxv m : options_ok maxv 0 (m_opt m) = true ->
 Proof. intros H. unfold canonical. rewrite (option_list_sorted_id maxv _ 0 H). destruct m; reflexivity. Qed.
 
 (* on a message whose options are already in wire order *)
-Lemma Message_encode_sorted m : wf_header 15 m -> options_ok 65803 0 (m_opt m) = true ->
+Lemma Message_encode_sorted m : wf_header 15 m -> options_ok 65804 0 (m_opt m) = true ->
   Message_encode m = Ok (rfc_encode m) /\ bytes_ok (rfc_encode m) = true.
 Proof.
   intros (Ht & Hc & Hm & Hk & Htok & Hpay) Hopts. pose proof (blen_nonneg (m_token m)) as Hnn.
@@ -346,9 +309,9 @@ Proof.
 Qed.
 
 (* ------------------------------------------------------------------ the property's first sentence, for any insertion order *)
-Definition wf (m : msg) : bool := header_ok 8 m && options_ok 65803 0 (option_list (m_opt m)).
+Definition wf (m : msg) : bool := header_ok 8 m && options_ok 65804 0 (option_list (m_opt m)).
 
-Lemma wf_canonical m : wf m = true -> wf_header 15 (canonical m) /\ options_ok 65803 0 (m_opt (canonical m)) = true.
+Lemma wf_canonical m : wf m = true -> wf_header 15 (canonical m) /\ options_ok 65804 0 (m_opt (canonical m)) = true.
 Proof.
   unfold wf. intros H. apply andb_prop in H as [H1 H2]. apply header_ok_iff in H1. unfold wf_header in *. cbn [canonical m_type m_code m_mid m_token m_payload m_opt].
   split; [intuition lia|exact H2].
@@ -371,8 +334,7 @@ Qed.
 (* Theorem 3: parsing the wire format gives the message back, options in option_list order *)
 Lemma decode_encode m : wf m = true -> Message_decode (rfc_encode (canonical m)) = Ok (canonical m).
 Proof.
-  intros H. destruct (wf_canonical m H) as [A B]. apply Message_decode_rfc_encode; [exact A|].
-  apply (options_ok_weaken 65803 65804); [lia|exact B].
+  intros H. destruct (wf_canonical m H) as [A B]. apply Message_decode_rfc_encode; [exact A|exact B].
 Qed.
 Lemma roundtrip m : wf m = true -> bind (Message_encode m) Message_decode = Ok (canonical m).
 Proof. intros H. rewrite (encode_is_rfc m H). cbn [bind]. apply decode_encode. exact H. Qed.
@@ -390,12 +352,10 @@ Proof.
   fold (payload_tail (m_payload m)).
   replace (m_mid m) with (m_mid m / 256 * 256 + m_mid m mod 256) at 3 by lia.
   apply WF_datagram with (tkl := blen (m_token m)); try lia.
-  apply rfc_options_WF. apply (options_ok_weaken 65803 65804); [lia|exact H2].
+  apply rfc_options_WF. exact H2.
 Qed.
 
 (* ------------------------------------------------------------------ Theorem 5: total parsing *)
-Definition ext_max (m : msg) : bool := ext_max_at 0 (m_opt m).
-
 Lemma Message_decode_total data : bytes_ok data = true ->
   Message_decode data = Raise UnparsableMessage \/
   exists m, Message_decode data = Ok m /\ wf_header 15 m /\ options_ok 65804 0 (m_opt m) = true.
@@ -421,22 +381,10 @@ Qed.
 
 Lemma decode_total data : bytes_ok data = true ->
   Message_decode data = Raise UnparsableMessage \/
-  exists m, Message_decode data = Ok m /\
-    ((ext_max m = false /\ Message_encode m = Ok (rfc_encode m) /\ Message_decode (rfc_encode m) = Ok m) \/
-     (ext_max m = true /\ Message_encode m = Raise ValueError)).
+  exists m, Message_decode data = Ok m /\ Message_encode m = Ok (rfc_encode m) /\ Message_decode (rfc_encode m) = Ok m.
 Proof.
   intros Hok. destruct (Message_decode_total data Hok) as [E|(m & E & Hh & Ho)]; [left; exact E|].
-  right. exists m. split; [exact E|]. pose proof (options_ok_split (m_opt m) 0 Ho) as S. unfold ext_max.
-  destruct (ext_max_at 0 (m_opt m)) eqn:X.
-  - right. split; [reflexivity|].
-    destruct Hh as (Ht & Hc & Hm & Hk & Htok & Hpay). pose proof (blen_nonneg (m_token m)) as Hnn.
-    unfold Message_encode. rewrite type_land, nib_land by lia. change (Z.shiftl 1 6) with 64. rewrite shiftl4.
-    unfold bytes_of_int, byte_ok. replace ((0 <=? 64 + m_type m * 16 + blen (m_token m)) && (64 + m_type m * 16 + blen (m_token m) <? 256)) with true by lia.
-    cbn [bind]. unfold struct_pack_BH.
-    replace ((0 <=? m_code m) && (m_code m <? 256) && (0 <=? m_mid m) && (m_mid m <? 65536)) with true by lia. cbn [bind].
-    unfold Options_encode. rewrite (option_list_sorted_id _ _ 0 Ho).
-    rewrite (Options_encode_loop_ext_max _ 0 Ho X). reflexivity.
-  - left. split; [reflexivity|]. split.
-    + apply (Message_encode_sorted m Hh S).
-    + apply (Message_decode_rfc_encode m Hh Ho).
+  right. exists m. split; [exact E|]. split.
+  - apply (Message_encode_sorted m Hh Ho).
+  - apply (Message_decode_rfc_encode m Hh Ho).
 Qed.
